@@ -142,6 +142,12 @@ pub struct Cfg {
     /// "det" (default, harness generator), "random", "hashed"
     #[serde(default)]
     pub cid_gen: String,
+    /// hostile transport parameters: [[id, value]] sets (or adds) an integer parameter,
+    /// [[id, -1]] removes it, [[id, -2, "hex"]] sets raw bytes; applied to the bytes quinn produced
+    #[serde(default)]
+    pub client_tp: Vec<Value>,
+    #[serde(default)]
+    pub server_tp: Vec<Value>,
 }
 
 impl Default for Cfg {
@@ -642,7 +648,9 @@ impl World {
         server_crypto.accept_early = cfg.accept_early;
         {
             let tap = tp_server.clone();
+            let edits = cfg.server_tp.clone();
             server_crypto.param_hook = Some(Arc::new(move |b: Vec<u8>| {
+                let b = tp_edit(&b, &edits);
                 tap.lock().unwrap().push(b.clone());
                 b
             }));
@@ -699,7 +707,10 @@ impl World {
             cc.ch_size = cfg.ch_size;
             {
                 let tap = tp_client.clone();
+                // hostile parameters are presented by the first client only; the others are bystanders
+                let edits = if i == 0 { cfg.client_tp.clone() } else { Vec::new() };
                 cc.param_hook = Some(Arc::new(move |b: Vec<u8>| {
+                    let b = tp_edit(&b, &edits);
                     tap.lock().unwrap().push(b.clone());
                     b
                 }));
@@ -1664,6 +1675,56 @@ impl World {
     }
 }
 
+/// Apply hostile edits to an encoded transport parameter list
+pub fn tp_edit(b: &[u8], edits: &[Value]) -> Vec<u8> {
+    if edits.is_empty() {
+        return b.to_vec();
+    }
+    let mut items: Vec<(u64, Vec<u8>)> = Vec::new();
+    let mut r = wire::Rd::new(b);
+    while r.left() > 0 {
+        let Some(id) = r.var() else { break };
+        let Some(len) = r.var() else { break };
+        let Some(body) = r.take(len as usize) else { break };
+        items.push((id, body.to_vec()));
+    }
+    for e in edits {
+        let id = e[0].as_u64().unwrap_or(0);
+        let v = e[1].as_i64().unwrap_or(0);
+        if v == -1 {
+            items.retain(|x| x.0 != id);
+        } else if v == -3 {
+            // duplicate the parameter
+            if let Some(x) = items.iter().find(|x| x.0 == id).cloned() {
+                items.push(x);
+            }
+        } else {
+            let body = if v == -2 {
+                let hexs = e[2].as_str().unwrap_or("");
+                (0..hexs.len() / 2)
+                    .map(|i| u8::from_str_radix(&hexs[2 * i..2 * i + 2], 16).unwrap_or(0))
+                    .collect()
+            } else {
+                let mut o = Vec::new();
+                wire::put_var(&mut o, v as u64);
+                o
+            };
+            if let Some(x) = items.iter_mut().find(|x| x.0 == id) {
+                x.1 = body;
+            } else {
+                items.push((id, body));
+            }
+        }
+    }
+    let mut out = Vec::new();
+    for (id, body) in items {
+        wire::put_var(&mut out, id);
+        wire::put_var(&mut out, body.len() as u64);
+        out.extend_from_slice(&body);
+    }
+    out
+}
+
 /// Independent TLV decode of the integer transport parameters (RFC 9000 section 18)
 pub fn tp_json(b: &[u8]) -> Value {
     let mut r = wire::Rd::new(b);
@@ -1863,7 +1924,7 @@ pub fn probe_json(p: &quinn_proto::verif::ConnProbe, level: u8) -> Value {
         "alloc":st.allocated_remote_count,"nextr":st.next_remote,"nrep":st.next_reported_remote,
         "ss":st.send_streams,"cb":st.connection_blocked,"md":st.max_data,"rw":st.receive_window,
         "lmd":st.local_max_data,"smd":st.sent_max_data,"ds":st.data_sent,"dr":st.data_recvd,
-        "ua":st.unacked_data,"sw":st.send_window,"debt":st.receive_window_shrink_debt,
+        "ua":st.unacked_data,"sw":st.send_window,"debt":st.receive_window_shrink_debt,"srw":st.stream_receive_window,
         "nsend":st.send_slots,"nrecv":st.recv_slots,
     });
     if level >= 1 {
